@@ -105,6 +105,19 @@ Theorem fragment_pass : forall tpls gate md ops, caps_nonneg (tpls_offs tpls) ->
 Proof. exact fragment_pass_l. Qed.
 Print Assumptions fragment_pass.
 
+(* Pods and NodePools may themselves constrain the reservation-id label (In / NotIn / Exists). The requirement left
+   on a NodeClaim that holds reservations still admits exactly the held ids, and every reservable candidate is admitted
+   by the accumulated requirement. *)
+Theorem final_requirement_admits_exactly_held : forall q held r, held <> [] ->
+  (forall x, In x held -> radmits (f_rids q) x = true) ->
+  (radmits (final_rids q held) r = true <-> In r held).
+Proof. exact final_rids_exact_l. Qed.
+Print Assumptions final_requirement_admits_exactly_held.
+
+Theorem candidates_admitted : forall q its r, In r (cands_of q its) -> radmits (f_rids q) r = true.
+Proof. exact cands_admitted. Qed.
+Print Assumptions candidates_admitted.
+
 (* The boolean oracles evaluated on the implementation's observations decide the specification. *)
 Theorem oracle_snapshot_sound : forall offs s, snap_holds_b offs s = true <-> snap_holds offs s.
 Proof. exact snap_holds_b_spec. Qed.
